@@ -164,6 +164,10 @@ class C04CTarget(ct.CTarget):
 
 class C04CppTarget(ct.CppTarget):
     def generate(self):
+        if self.std != "c++14" and "-include" not in self.cxxflags:
+            # DESIGN F10 (property C06): the header of a non-sealed union does not include <variant> in C++17 mode.
+            # That is C06's finding; it must not take this property's sanitizer targets down.
+            self.cxxflags = list(self.cxxflags) + ["-include", "variant"]
         if not super().generate():
             return False
         hit = 0
@@ -291,7 +295,7 @@ def nnvg_cpp(ns_dir, outdir, std, extra=()):
     env["PYTHONPATH"] = str(common.REPO / "src")
     env["PYTHONDONTWRITEBYTECODE"] = "1"
     cmd = [common.PY, "-m", "nunavut", "--experimental-languages", "--target-language", "cpp", "--language-standard", std,
-           "--outdir", str(outdir)] + list(extra) + [str(ns_dir)]
+           "--outdir", str(outdir), str(ns_dir)] + list(extra)     # `--configuration` takes a list: it must come last
     p = subprocess.run(cmd, capture_output=True, text=True, timeout=900, env=env, cwd=str(outdir.parent))
     return p.returncode == 0, (p.stdout + p.stderr)[-3000:]
 
@@ -539,7 +543,7 @@ def variant_stream(ctx, drv, state):
                 elif mn != an:
                     ctx.disagree("variant/tracked", {"kinds": k, "slots": s, "ops": o}, m, a)
     # ---- sanitizer builds: corpus + a sample --------------------------------------------------------------
-    nsan = 1500 if ctx.quick else 12000
+    nsan = 700 if ctx.quick else 12000
     pick = list(range(len(corpus_ops))) + sorted(rng.sample(range(len(corpus_ops), len(reqs)), min(nsan, len(reqs) - len(corpus_ops))))
     for b in (san14, san17):
         if not b.ok:
@@ -595,7 +599,7 @@ def make_targets(ns, base, quick, tag):
     specs = [C04CTarget(ns, base / "c", endianness="any", asserts=True, cc="gcc", cflags=SAN, tag=f"c/any+asserts")]
     for std in ("c++14", "c++17", "c++20", "c++17-pmr"):
         specs.append(C04CppTarget(ns, base / std.replace("+", "p"), std=std, asserts=False, cxx="g++", cxxflags=SAN,
-                                  parts=4 if quick else 8, tag=f"cpp/{std}"))
+                                  parts=6 if quick else 8, tag=f"cpp/{std}"))
     if not quick:
         specs.append(C04CTarget(ns, base / "c_little", endianness="little", asserts=False, cc="clang", cflags=SAN, tag="c/little/clang"))
         specs.append(C04CTarget(ns, base / "c_big", endianness="big", asserts=False, cc="gcc", cflags=SAN, tag="c/big"))
@@ -725,7 +729,7 @@ def codec_stream(ctx, drivers, ns, label, specs, n_values, n_invalid, n_strings)
             ctx.count(f"codec_{r['role']}")
             m = model.get(r["model"])
             if a.startswith("crash:"):
-                fail({"kind": a.split(":", 1)[1], "target": t.name, "construct": r["role"].split("-")[0]},
+                fail({"kind": a.split(":", 1)[1], "target": t.name, "construct": "serialize" if r["kind"] == "ser" else "deserialize"},
                      f"{t.name}: the generated code of {gt.full_name} died under the sanitizers on `{r['req'][:120]}`", replay_of(t, r, {"observed": a}))
                 ctx.count("codec_crash")
                 if m is not None:
@@ -735,7 +739,7 @@ def codec_stream(ctx, drivers, ns, label, specs, n_values, n_invalid, n_strings)
                 ctx.count("codec_not_applicable")
                 continue
             if a.startswith("err:") and a not in DOCUMENTED:
-                fail({"kind": "undocumented-error", "target": t.name, "construct": r["role"].split("-")[0], "error": a},
+                fail({"kind": "undocumented-error", "target": t.name, "construct": "serialize" if r["kind"] == "ser" else "deserialize", "error": a},
                      f"{t.name}: {a} is not one of the documented outcomes", replay_of(t, r, {"observed": a}))
             ctx.count("codec_outcome_" + ("ok" if a.startswith("ok") else a[4:] if a.startswith("err:") else "other"))
             # model: outcome class (value correctness is C01/C02's business; C++ nested delimited decode is their F6)
@@ -765,9 +769,29 @@ def codec_stream(ctx, drivers, ns, label, specs, n_values, n_invalid, n_strings)
                 first = lambda r: r["other"] if r["role"] == "de2-other" else r["hex"]
                 pred1 = vdrv.ask([f"twice 1 {r['gt'].tstr} {first(r)} {r['hex']}" for r, _ in xs], timeout=1200)
                 pred0 = vdrv.ask([f"twice 0 {r['gt'].tstr} {first(r)} {r['hex']}" for r, _ in xs], timeout=1200)
-                for (r, a), p1, p0 in zip(xs, pred1, pred0):
+                # baseline: the same bytes decoded ONCE into a fresh object must already agree with the model on the container
+                # sizes; where they do not, the difference is a value defect (C01/C02), not an effect of the prior state
+                fresh = {r["group"]: a for r, a in zip(reqs, answers) if r["role"] == "de"}
+                predf = vdrv.ask([f"twice 1 {r['gt'].tstr} - {r['hex']}" for r, _ in xs], timeout=1200)
+
+                def sizes_of(r, ans):
+                    body = ans[2:].strip()
+                    v = dsdlgen.parse_value(r["gt"].expr, body.rsplit(" ", 1)[0])
+                    sz = container_sizes(r["gt"].expr, v)
+                    return "ok sizes=" + (".".join(map(str, sz)) if sz else "-") + " consumed=" + body.rsplit(" ", 1)[1]
+                for (r, a), p1, p0, pf in zip(xs, pred1, pred0, predf):
                     if not p1.startswith("ok"):
                         ctx.count("twice_first_decode_failed_or_error")
+                        continue
+                    fa = fresh.get(r["group"], "")
+                    try:
+                        if not fa.startswith("ok") or sizes_of(r, fa) != pf:
+                            ctx.count("twice_skipped_fresh_decode_differs_from_spec")
+                            ctx.extra.setdefault("value_defects_outside_c04", [])
+                            if len(ctx.extra["value_defects_outside_c04"]) < 3:
+                                ctx.extra["value_defects_outside_c04"].append({"target": t.name, "type": r["gt"].tstr, "bytes": r["hex"], "decoded": fa, "spec_sizes": pf})
+                            continue
+                    except Exception:
                         continue
                     body = a[2:].strip()
                     vtxt = body.rsplit(" ", 1)[0]
@@ -794,22 +818,28 @@ OV_CAP = 6
 
 
 def field_flags(header_text, eb):
-    """From the generated serializer: is the length prefix / are the elements written through the checked setter?"""
-    m = re.search(r"\{\s*// saturated uint\d+\[<=6\] xs(.*?)\n    \{\s*// saturated uint8 b", header_text, re.S)
+    """From the generated serializer: which writes go through the checked setter?  -> (a, prefix, elements, b)"""
+    m = re.search(r"\{\s*// saturated uint8 a(.*?)\n    \{\s*// saturated uint\d+\[<=6\] xs(.*?)\n    \{\s*// saturated uint8 b(.*?)\n    (?:if \(offset_bits % 8U|// It is assumed)",
+                  header_text, re.S)
     if not m:
-        raise RuntimeError("cannot find the serialization block of field xs")
-    blk = m.group(1)
+        raise RuntimeError("cannot find the serialization blocks of the fields a, xs, b")
+    blk_a, blk, blk_b = m.group(1), m.group(2), m.group(3)
+
+    def prim_checked(b):
+        if "nunavutSetUxx" in b:
+            return True
+        if "buffer[offset_bits / 8U]" in b or "memmove" in b or "nunavutCopyBits" in b:
+            return False
+        raise RuntimeError("unrecognised primitive write: " + b[:200])
     pre, _, loop = blk.partition("for (")
-    lp_checked = "nunavutSetUxx" in pre or "nunavutSetIxx" in pre
+    lp_checked = prim_checked(pre.split("// Array length prefix", 1)[1]) if "// Array length prefix" in pre else prim_checked(pre)
     if loop:
-        elems_checked = "nunavutSetUxx" in loop or "nunavutSetBit" in loop
-        if not elems_checked and "buffer[offset_bits / 8U]" not in loop and "nunavutCopyBits" not in loop:
-            raise RuntimeError("unrecognised element loop")
+        elems_checked = prim_checked(loop)
     else:
         elems_checked = False
         if "nunavutCopyBits" not in pre:
             raise RuntimeError("unrecognised bulk copy")
-    return lp_checked, elems_checked
+    return prim_checked(blk_a), lp_checked, elems_checked, prim_checked(blk_b)
 
 
 def override_prepare(ctx):
@@ -880,8 +910,8 @@ def override_stream(ctx, vdrv, state):
         mlines = []
         for (t, op, arg) in meta:
             eb = OV_TYPES[t]
-            lpc, ec = flags[t]
-            fields = f"p:8:0;v:8:{eb}:{OV_CAP}:{real_sl}:{int(lpc)}:{int(ec)};p:8:0"
+            ac, lpc, ec, bc = flags[t]
+            fields = f"p:8:{int(ac)};v:8:{eb}:{OV_CAP}:{real_sl}:{int(lpc)}:{int(ec)};p:8:{int(bc)}"
             if op == "ser":
                 mlines.append(f"cser {check} {cmp_storage} {arg[1]} {fields} p;c:{arg[0]};p")
             elif op == "de":
@@ -947,7 +977,7 @@ def override_stream(ctx, vdrv, state):
                         ctx.disagree("override/" + name, {"request": l}, m, a)
         if exit_kind:
             ctx.fail({"kind": exit_kind, "target": "c/override", "construct": "exit"}, "sanitizer report at exit", {"stream": "override", "config": name})
-    ctx.sample({"stream": "override", "configs": [c[0] for c in configs], "field_paths": {t: {"prefix_checked": f[0], "elements_checked": f[1]} for t, f in flags.items()}})
+    ctx.sample({"stream": "override", "configs": [c[0] for c in configs], "checked_setter_used_for": {t: {"a": f[0], "prefix": f[1], "elements": f[2], "b": f[3]} for t, f in flags.items()}})
 
 
 # ------------------------------------------------------------------------------------------------------------
@@ -990,7 +1020,7 @@ def run(ctx: common.Ctx):
     namespaces = []
     for rnd in range(nrounds):
         root_name = f"vns{rnd}"
-        ns = dsdlgen.generate(ctx.rng, ctx.scratch / f"gen_ns{rnd}", n_types=(18 if ctx.quick else 60), root_name=root_name, profile=prof)
+        ns = dsdlgen.generate(ctx.rng, ctx.scratch / f"gen_ns{rnd}", n_types=(12 if ctx.quick else 60), root_name=root_name, profile=prof)
         ctx.count("generated_types", len(ns.types))
         ctx.count("dropped_definitions", len(ns.dropped))
         if rnd == 0:
@@ -1039,7 +1069,8 @@ def run(ctx: common.Ctx):
     for d in ctx.disagreements:
         by_stream.setdefault(d["stream"], []).append(d)
     ctx.extra["disagreements_by_stream"] = {k: {"n": len(v), "first": v[:3]} for k, v in by_stream.items()}
-    ctx.extra["broken_kinds"] = [b.get("kind") + ":" + str(b.get("target", b.get("error", "")))[:200] for b in ctx.broken]
+    ctx.extra["broken_kinds"] = [b.get("kind") + ":" + str(b.get("target", b.get("error", "")))[:200] + " :: " +
+                                 " | ".join(re.findall(r"[^\n]*error[^\n]*", str(b.get("log_tail", "")))[:3])[:600] for b in ctx.broken]
 
 
 def replay(ctx, path):
